@@ -68,7 +68,11 @@ func newStoreDriver(out string) (*storeDriver, error) {
 		return baseTime.Add(time.Duration(d.now) * time.Second)
 	})
 	for i := 1; i <= 4; i++ {
-		tok, _ := mintID(tokenSpec{Class: "good", Sub: "u", Aud: "c", Exp: baseTime.Unix() + 1_000_000, Iat: baseTime.Unix(), Jti: fmt.Sprintf("tok-%d", i), Variant: i})
+		exp := baseTime.Unix() + 1_000_000
+		if i == 4 {
+			exp = baseTime.Unix() + 6 // one value's ID token expires early in every history: a store keeps what it was given, expired or not
+		}
+		tok, _ := mintID(tokenSpec{Class: "good", Sub: "u", Aud: "c", Exp: exp, Iat: baseTime.Unix(), Jti: fmt.Sprintf("tok-%d", i), Variant: i})
 		tr := &oidc.TokenResponse{IDToken: tok, AccessToken: fmt.Sprintf("at-%d", i), RefreshToken: fmt.Sprintf("rt-%d", i),
 			AccessTokenExpiresAt: baseTime.Add(time.Duration(1000+i) * time.Second)}
 		// the values differ in which optional members they carry, so that a member of an earlier write that survives an overwrite shows
